@@ -286,7 +286,9 @@ def r_solar(ctx, a):
     else:
         li = np.arange(lons.size); lj = np.arange(lats.size)
     T = Trig()
-    model_flux_tables(ctx, T, m8[2], m8[3], lons[li].tolist(), lats[lj].tolist(), S, V)
+    _, _, mh = model_flux_tables(ctx, T, m8[2], m8[3], lons[li].tolist(), lats[lj].tolist(), S, V)
+    ha = np.asarray(sr.solar_hour_angle(t))[li, 0]
+    ctx.corr('SolarRadiation.solar_hour_angle (mod 2 pi)', _circ(ha, [float(v) for v in mh]), mh, scale=raw_scale + 10)
     mf = ctx.model.call(9, [no, ns], T.arrs([PI, S, V, ro, rs, ao, as_, t], lons[li], lats[lj]))
     f = np.asarray(sr.radiation_flux(t))
     ctx.corr('SolarRadiation.radiation_flux', f[np.ix_(li, lj)], mf, scale=(S + V) * raw_scale)
